@@ -155,6 +155,16 @@ func (c *rlComp) Gen(rng *rand.Rand, idx int, tier string, targeted bool) hlib.H
 		}
 		rates = append(rates, rateSpec{p, avg, burst})
 	}
+	// a sixth of the histories: a large-burst short-period rate next to a generous long-period rate (which keeps the
+	// source remembered), drained and then left idle for exactly burst x timePerToken
+	drainIdle := rng.Intn(6) == 0
+	if drainIdle {
+		avg := hlib.Pick(rng, 1, 2, 3, 5)
+		rates = []rateSpec{{1e9, avg, avg * (11 + rng.Int63n(20))}, {60e9, 100000, 1000000}}
+		if rng.Intn(3) == 0 {
+			rates[0].period = 5e8
+		}
+	}
 	sort.Slice(rates, func(i, j int) bool { return rates[i].period < rates[j].period })
 	nsrc := 1 + rng.Intn(5)
 	capacity := int64(1 + rng.Intn(8))
@@ -180,6 +190,20 @@ func (c *rlComp) Gen(rng *rand.Rand, idx int, tier string, targeted bool) hlib.H
 		nops = 60 + rng.Intn(500)
 	}
 	r0 := rates[0]
+	if drainIdle {
+		for i := 0; i < 4; i++ {
+			src := int64(rng.Intn(nsrc))
+			h.Ops = append(h.Ops, []int64{0, src, r0.burst - rng.Int63n(3), -1}) // drain (almost) everything at once
+			for k := rng.Intn(3); k > 0; k-- {
+				h.Ops = append(h.Ops, []int64{0, src, 1 + rng.Int63n(r0.burst), -1})
+			}
+			h.Ops = append(h.Ops, []int64{1, r0.burst*tptOf(r0) + rng.Int63n(2)}) // idle: exactly enough to refill, or 1 ns more
+			h.Ops = append(h.Ops, []int64{0, src, r0.burst, -1})                  // the full burst must be available again
+			h.Ops = append(h.Ops, []int64{0, src, 1, -1})
+			h.Ops = append(h.Ops, []int64{2})
+			h.Ops = append(h.Ops, []int64{0, src, 1, -1})
+		}
+	}
 	mode := rng.Intn(4) // 0 mixed, 1 sustained traffic longer than the entry lifetime, 2 idle gaps around refill/expiry, 3 retry-at-advertised
 	for i := 0; i < nops; i++ {
 		src := int64(rng.Intn(nsrc))
